@@ -1,14 +1,14 @@
 INIT Init
 NEXT Next
 CONSTANTS
-  NS = 3
+  NS = 2
   NT = 2
-  Vals <- MCValsThree
+  Vals <- MCValsSigned
   TagA <- MCTagA
   TagB <- MCTagB
   R = 2
   WMax = 1
-  Tables <- TablesAgg
+  Tables <- TablesTop
   SelMod = 1
   Sel = 0
   PreAvg = TRUE
@@ -16,13 +16,6 @@ CONSTANTS
   AnchorVals <- NoAnchor
 INVARIANTS
   TypeOK
-  DigestIsDefinition
-  Rule0Exact
-  Rule1Exact
-  Rule2Exact
-  Rule3Exact
-  ReduciblePairs
-  DefinitionsSane
   TopRanksByValue
   Export
 CHECK_DEADLOCK FALSE
